@@ -59,6 +59,22 @@ def retainedNodes (mode : Mode) (ren : String → String) (orig new : Net K) : L
   | .componentwise =>
     (((orig.flatMap (·.nodes)).filter (fun n => (new.flatMap (·.nodes)).contains (ren n))) ++ ground).eraseDups
 
+/-- the node renaming a component-preserving rewrite (renumber) performed, read off position by
+    position: `none` when the two netlists do not list the same components in the same order -/
+def renamingOf (orig new : Net K) : Option (List (String × String)) :=
+  if orig.length ≠ new.length then none
+  else if (orig.zip new).any (fun p => p.1.name ≠ p.2.name || p.1.nodes.length ≠ p.2.nodes.length) then none
+  else some ((orig.zip new).flatMap (fun p => p.1.nodes.zip p.2.nodes)).eraseDups
+
+/-- first node that is sent to two different names (the relation is not a function) -/
+def notFunction (m : List (String × String)) : Option String :=
+  (m.find? (fun p => m.any (fun q => p.1 = q.1 && p.2 ≠ q.2))).map (·.1)
+
+/-- first pair of distinct nodes that are given the same new name: a renaming must be injective,
+    otherwise two nodes of the circuit are merged -/
+def notInjective (m : List (String × String)) : Option (String × String) :=
+  (m.findSome? (fun p => (m.find? (fun q => p.2 = q.2 && p.1 ≠ q.1)).map (fun q => (p.1, q.1))))
+
 /-- a solved circuit as the harness reports it: node name ↦ voltage, component name ↦ current -/
 structure Sol (K : Type) where
   V : List (String × K)
